@@ -88,7 +88,7 @@ func (fs *ReadOnlyFS) Open(name string) (hackpadfs.File, error) {
 	return f, err
 }
 
-func (fs *ReadOnlyFS) copyFile(name string, f hackpadfs.File, info hackpadfs.FileInfo) error {
+func (fs *ReadOnlyFS) copyFile(name string, f hackpadfs.File, info hackpadfs.FileInfo) (retErr error) {
 	parentName := path.Dir(name)
 	if err := hackpadfs.MkdirAll(fs.cacheFS, parentName, 0700); err != nil {
 		return &hackpadfs.PathError{Op: "open", Path: parentName, Err: err}
@@ -97,7 +97,12 @@ func (fs *ReadOnlyFS) copyFile(name string, f hackpadfs.File, info hackpadfs.Fil
 	if err != nil {
 		return err
 	}
-	defer func() { _ = destFile.Close() }()
+	defer func() {
+		// a cache file that could not be closed (flushed) is not a complete copy
+		if closeErr := destFile.Close(); retErr == nil {
+			retErr = closeErr
+		}
+	}()
 
 	destFileWriter, ok := destFile.(io.Writer)
 	if !ok {
